@@ -22,6 +22,19 @@ Grammar of a decision list: the body is a sequence of statements
   EXPR ::= true | false | TERM { + TERM }        TERM ::= ID | "lit" | 'c'
 where ID is one of the function's parameters.
 
+Round four adds two more items:
+  * `prettyPath` (both overloads) - straight-line "string programs": a sequence of
+        std::string V = EXPR ;   V = EXPR ;   V += TERM ;   V.resize(V.size()-K) ; | V.pop_back() ; | V.erase(V.size()-K) ;
+        bool B = BEXPR ;   if ( COND ) <one of the above> ;   [else] if ( COND ) return EXPR ;   return EXPR ;
+    with EXPR ::= TERM { + TERM }, TERM ::= ID | "lit" | 'c' | F(ARG,...), COND atoms as below plus a bool variable
+    `B` / `!B`; translated to a chain of `let` / `if` (-> `prettyPathWith`, `prettyPathAutoWith`; the sanitiser resp. the
+    two-argument overload are parameters of the generated definitions),
+  * the control skeleton of `formatString`: the test that decides "the stack buffer was large enough"
+    (`if (r<bufferSize) return std::string(buffer)`, any linear comparison between r and the capacity) ->
+    `fmtFitsStack`, and the size of the heap buffer (`static_cast<std::size_t>(r)+1`, any `r + K`) -> `fmtDynamicSize`;
+    the translator insists on the `if (r<0) DUNE_THROW` checks after both snprintf calls, on the heap buffer being
+    allocated with that size and on the second snprintf being given that size (otherwise: fallback).
+
 The loops of processPath / relativePath are NOT translated (their constants are tied by the exhaustive
 differential run: e.g. `src += 4` instead of `src += 3` is behaviourally equivalent and must not alarm).
 
@@ -155,7 +168,7 @@ def split_top(text, sep):
     return parts
 
 
-def atom(a, ids):
+def atom(a, ids, bools=()):
     a = a.strip()
     while a.startswith("(") and a.endswith(")"):
         depth, whole = 0, True
@@ -170,6 +183,13 @@ def atom(a, ids):
         if not whole:
             break
         a = a[1:-1].strip()
+    if a in bools:
+        return "%s = true" % a
+    mb = re.fullmatch(r"!\s*(\w+)", a)
+    if mb and mb.group(1) in bools:
+        return "%s = false" % mb.group(1)
+    if not ids:
+        raise TranslateError("condition outside the grammar: %r" % a)
     idp = r"(%s)" % "|".join(map(re.escape, ids))
     m = re.fullmatch(idp + r"\s*==\s*" + STR, a)
     if m:
@@ -199,9 +219,9 @@ def atom(a, ids):
     raise TranslateError("condition outside the grammar: %r" % a)
 
 
-def cond(c, ids):
+def cond(c, ids, bools=()):
     parts = split_top(c, "||")
-    atoms = [atom(p, ids) for p in parts]
+    atoms = [atom(p, ids, bools) for p in parts]
     return atoms[0] if len(atoms) == 1 else " ∨ ".join("(%s)" % x for x in atoms)
 
 
@@ -371,7 +391,343 @@ DEFAULT_CONCAT = (["base", "p"], [("p = []", "base"), ("p.head? = some '/'", "p"
                                   ("hasSuffix base ['/'] = true", "base ++ p"), (None, "base ++ ['/'] ++ p")])
 
 
-ITEMS = ("bufferSize", "pathIndicatesDirectory", "concatPaths", "docTables")
+# ---- round four: straight-line string programs (prettyPath) ---------------------------------------------------
+def function_body2(src, name, kinds):
+    """like function_body, for a parameter list of the given kinds ('s' = string, 'b' = bool)"""
+    for m in re.finditer(r"\b%s\s*\(([^()]*)\)\s*\{" % re.escape(name), src):
+        params = [p.strip() for p in m.group(1).split(",") if p.strip()]
+        if len(params) != len(kinds):
+            continue
+        names = []
+        for p, k in zip(params, kinds):
+            if k == "s":
+                mm = re.fullmatch(r"(?:const\s+)?std::string(?:\s+const)?\s*&?\s*([A-Za-z_]\w*)", p)
+            else:
+                mm = re.fullmatch(r"(?:const\s+)?bool(?:\s+const)?\s*&?\s*([A-Za-z_]\w*)", p)
+            if not mm:
+                raise TranslateError("%s: parameter %r is not of kind %s" % (name, p, k))
+            names.append(mm.group(1))
+        depth, i, in_str = 1, m.end(), None
+        while i < len(src) and depth:
+            c = src[i]
+            if in_str:
+                if c == "\\":
+                    i += 1
+                elif c == in_str:
+                    in_str = None
+            elif c in "\"'":
+                in_str = c
+            elif c == "{":
+                depth += 1
+            elif c == "}":
+                depth -= 1
+            i += 1
+        if depth:
+            raise TranslateError("%s: unbalanced braces" % name)
+        return names, src[m.end():i - 1]
+    raise TranslateError("definition of %s with parameter kinds %s not found" % (name, "".join(kinds)))
+
+
+LEAN_RESERVED = {"if", "then", "else", "let", "fun", "do", "at", "in", "end", "def", "match", "with", "from", "have", "show",
+                 "open", "Str", "hasPrefix", "hasSuffix", "pathIndicatesDirectory", "concatPaths", "true", "false"}
+
+
+class Env:
+    def __init__(self, strs, bools, funcs):
+        self.strs, self.bools, self.funcs = list(strs), list(bools), dict(funcs)   # funcs: C++ name -> (lean name, arg kinds, result kind)
+        for v in self.strs + self.bools:
+            if v in LEAN_RESERVED or v in self.funcs:
+                raise TranslateError("identifier %r clashes with a name of the generated file" % v)
+
+
+def sp_term(t, env, want):
+    """one operand -> (lean text, kind)"""
+    t = t.strip()
+    if want == "b":
+        if t in ("true", "false"):
+            return t
+        if t in env.bools:
+            return t
+    else:
+        if t in env.strs:
+            return t
+        m = re.fullmatch(STR, t)
+        if m:
+            return lean_str(c_unescape(m.group(1)))
+        m = re.fullmatch(CHR, t)
+        if m:
+            return lean_str(c_unescape(m.group(1)))
+        m = re.fullmatch(r"std::string\s*\(\s*\)", t)
+        if m:
+            return "[]"
+    m = re.fullmatch(r"(?:Dune::)?([A-Za-z_]\w*)\s*\((.*)\)", t, re.S)
+    if m and m.group(1) in env.funcs:
+        lean, kinds, res = env.funcs[m.group(1)]
+        if res != want:
+            raise TranslateError("call %r has the wrong result type" % t)
+        args = split_top(m.group(2), ",")
+        if len(args) != len(kinds):
+            raise TranslateError("call %r: wrong number of arguments" % t)
+        out = []
+        for a, k in zip(args, kinds):
+            x = sp_expr(a, env, k)
+            out.append(x if re.fullmatch(r"[\w.?]+|\[.*\]", x) and " ++ " not in x else "(%s)" % x)
+        return "%s %s" % (lean, " ".join(out))
+    raise TranslateError("operand outside the grammar: %r" % t)
+
+
+def sp_expr(e, env, want):
+    e = e.strip()
+    if want == "b":
+        return sp_term(e, env, "b")
+    terms = []
+    for t in split_top(e, "+"):
+        x = sp_term(t, env, "s")
+        terms.append("(%s)" % x if " " in x and not x.startswith("[") else x)
+    return " ++ ".join(terms) if len(terms) > 1 else sp_term(e, env, "s")
+
+
+def sp_simple(s, env):
+    """an update statement -> (variable, kind, new value as lean text) | None"""
+    idn = r"([A-Za-z_]\w*)"
+    m = re.fullmatch(idn + r"\s*\+=\s*(.*)", s, re.S)
+    if m and m.group(1) in env.strs:
+        return m.group(1), "s", "%s ++ %s" % (m.group(1), sp_expr(m.group(2), env, "s"))
+    m = re.fullmatch(idn + r"\s*\.\s*(?:resize|erase)\s*\(\s*(\w+)\s*\.\s*(?:size|length)\s*\(\s*\)\s*-\s*(\d+)\s*\)", s)
+    if m and m.group(1) in env.strs and m.group(2) == m.group(1):
+        return m.group(1), "s", "%s.take (%s.length - %d)" % (m.group(1), m.group(1), int(m.group(3)))
+    m = re.fullmatch(idn + r"\s*\.\s*pop_back\s*\(\s*\)", s)
+    if m and m.group(1) in env.strs:
+        return m.group(1), "s", "%s.take (%s.length - 1)" % (m.group(1), m.group(1))
+    m = re.fullmatch(idn + r"\s*=\s*(.*)", s, re.S)
+    if m and m.group(1) in env.strs:
+        return m.group(1), "s", sp_expr(m.group(2), env, "s")
+    if m and m.group(1) in env.bools:
+        return m.group(1), "b", sp_expr(m.group(2), env, "b")
+    return None
+
+
+def split_if(s):
+    """`if ( C ) REST` -> (C, REST) | None"""
+    m = re.match(r"^if\s*\(", s)
+    if not m:
+        return None
+    depth, i = 1, m.end()
+    while i < len(s) and depth:
+        if s[i] in "\"'":
+            q = s[i]
+            i += 1
+            while i < len(s) and s[i] != q:
+                i += 2 if s[i] == "\\" else 1
+        elif s[i] == "(":
+            depth += 1
+        elif s[i] == ")":
+            depth -= 1
+        i += 1
+    return s[m.end():i - 1], s[i:].strip()
+
+
+def string_program(body, strs, bools, funcs, want="s"):
+    """-> list of lean lines (the body of the definition)"""
+    if "{" in body or "}" in body:
+        raise TranslateError("compound statement outside the grammar")
+    env = Env(strs, bools, funcs)
+    stmts = [re.sub(r"\s+", " ", x.strip()) for x in split_top(body, ";")]
+    if stmts and stmts[-1] == "":
+        stmts.pop()
+    lines, done, prev_guarded_return = [], False, False
+    for s in stmts:
+        if done:
+            raise TranslateError("statement after the unconditional return: %r" % s)
+        if re.match(r"^else\b", s):
+            if not prev_guarded_return:
+                raise TranslateError("'else' after a statement that is not a guarded return: %r" % s)
+            s = re.sub(r"^else\b\s*", "", s)
+        prev_guarded_return = False
+        m = re.fullmatch(r"(?:const )?(?:std::string|auto)(?: const)? ([A-Za-z_]\w*) ?(?:= ?(.*)|\((.*)\))", s)
+        if m:
+            v = m.group(1)
+            rhs = sp_expr(m.group(2) if m.group(2) is not None else m.group(3), env, "s")
+            env = Env(env.strs + ([] if v in env.strs else [v]), env.bools, env.funcs)
+            lines.append("let %s := %s" % (v, rhs))
+            continue
+        m = re.fullmatch(r"(?:const )?bool(?: const)? ([A-Za-z_]\w*) ?= ?(.*)", s)
+        if m:
+            v = m.group(1)
+            rhs = sp_expr(m.group(2), env, "b")
+            env = Env(env.strs, env.bools + ([] if v in env.bools else [v]), env.funcs)
+            lines.append("let %s := %s" % (v, rhs))
+            continue
+        mm = re.fullmatch(r"return\b ?(.*)", s)
+        if mm:
+            lines.append(sp_expr(mm.group(1), env, want))
+            done = True
+            continue
+        ci = split_if(s)
+        if ci:
+            c, rest = ci
+            lc = cond(c, env.strs, env.bools)
+            mm = re.fullmatch(r"return\b ?(.*)", rest)
+            if mm:
+                lines.append("if %s then %s else" % (lc, sp_expr(mm.group(1), env, want)))
+                prev_guarded_return = True
+                continue
+            up = sp_simple(rest, env)
+            if up:
+                lines.append("let %s := if %s then %s else %s" % (up[0], lc, up[2], up[0]))
+                continue
+            raise TranslateError("guarded statement outside the grammar: %r" % s)
+        up = sp_simple(s, env)
+        if up:
+            lines.append("let %s := %s" % (up[0], up[2]))
+            continue
+        raise TranslateError("statement outside the grammar: %r" % s)
+    if not done:
+        raise TranslateError("program does not end in an unconditional return")
+    return lines
+
+
+def pretty_two(pc):
+    names, body = function_body2(pc, "prettyPath", "sb")
+    lines = string_program(body, [names[0]], [names[1]], {"processPath": ("processPath", "s", "s")})
+    return ["def prettyPathWith (processPath : Str → Str) (%s : Str) (%s : Bool) : Str :=" % tuple(names)] + ["  " + x for x in lines]
+
+
+def pretty_one(pc):
+    names, body = function_body2(pc, "prettyPath", "s")
+    lines = string_program(body, names, [], {"prettyPath": ("prettyPath", "sb", "s"),
+                                             "pathIndicatesDirectory": ("pathIndicatesDirectory", "s", "b")})
+    return ["def prettyPathAutoWith (prettyPath : Str → Bool → Str) (%s : Str) : Str :=" % names[0]] + ["  " + x for x in lines]
+
+
+DEFAULT_PRETTY_TWO = ["def prettyPathWith (processPath : Str → Str) (p : Str) (isDirectory : Bool) : Str :=",
+                      "  let result := processPath p",
+                      "  if result = [] then ['.'] else",
+                      "  if result = ['/'] then result else",
+                      "  let result := result.take (result.length - 1)",
+                      "  if (result = ['.', '.']) ∨ (hasSuffix result ['/', '.', '.'] = true) then result else",
+                      "  let result := if isDirectory = true then result ++ ['/'] else result",
+                      "  result"]
+DEFAULT_PRETTY_ONE = ["def prettyPathAutoWith (prettyPath : Str → Bool → Str) (p : Str) : Str :=",
+                      "  prettyPath p (pathIndicatesDirectory p)"]
+
+
+# ---- round four: the control skeleton of formatString -----------------------------------------------------------
+def linear(e, var, cap):
+    """`var`, `cap`, integer literals joined by + and - (casts of var stripped) -> (coefficient of var, of cap, constant)"""
+    e = re.sub(r"static_cast\s*<[^<>]*>\s*\(\s*%s\s*\)" % re.escape(var), var, e)
+    e = re.sub(r"\(\s*(?:std::)?size_t\s*\)\s*%s\b" % re.escape(var), var, e)
+    e = re.sub(r"(?:std::)?size_t\s*\(\s*%s\s*\)" % re.escape(var), var, e)
+    e = e.replace(" ", "")
+    while e.startswith("(") and e.endswith(")") and e.count("(") == 1:
+        e = e[1:-1]
+    toks = re.findall(r"[+-]|[A-Za-z_]\w*|\d+[uUlL]*", e)
+    if "".join(toks) != e or not toks:
+        raise TranslateError("expression outside the grammar: %r" % e)
+    cv = cc = k = 0
+    sign, expect_operand = 1, True
+    for t in toks:
+        if t in "+-":
+            if expect_operand and t == "+":
+                raise TranslateError("expression outside the grammar: %r" % e)
+            sign = sign * (1 if t == "+" else -1) if expect_operand else (1 if t == "+" else -1)
+            expect_operand = True
+            continue
+        if not expect_operand:
+            raise TranslateError("expression outside the grammar: %r" % e)
+        if t == var:
+            cv += sign
+        elif cap is not None and t == cap:
+            cc += sign
+        elif t[0].isdigit():
+            k += sign * int(re.sub(r"[uUlL]+$", "", t))
+        else:
+            raise TranslateError("unknown identifier %r in %r" % (t, e))
+        sign, expect_operand = 1, False
+    if expect_operand:
+        raise TranslateError("expression outside the grammar: %r" % e)
+    return cv, cc, k
+
+
+def format_skeleton(su):
+    """-> (a, b, K): the stack result is returned iff r + a < cap + b; the heap buffer has r + K bytes"""
+    m = re.search(r"\bformatString\s*\(([^()]*)\)\s*\{", su)
+    if not m:
+        raise TranslateError("definition of formatString not found")
+    depth, i = 1, m.end()
+    while i < len(su) and depth:
+        depth += {"{": 1, "}": -1}.get(su[i], 0)
+        i += 1
+    body = su[m.end():i - 1]
+    m1 = re.search(r"\bint\s+(\w+)\s*=\s*(?:std::)?snprintf\s*\(\s*(\w+)\s*,\s*(\w+)\s*,", body)
+    if not m1:
+        raise TranslateError("first snprintf call of formatString not found")
+    r, buf, cap = m1.group(1), m1.group(2), m1.group(3)
+    chk = r"if\s*\(\s*%s\s*<\s*0\s*\)\s*DUNE_THROW\b" % re.escape(r)
+    mfit = re.search(r"if\s*\(([^()]*(?:\([^()]*\)[^()]*)*)\)\s*return\s+std::string\s*\(\s*%s\s*\)\s*;" % re.escape(buf), body)
+    if not mfit:
+        raise TranslateError("'if (...) return std::string(%s)' not found" % buf)
+    c1 = re.search(chk, body[m1.end():mfit.start()])
+    if not c1:
+        raise TranslateError("no 'if (%s<0) DUNE_THROW' between the first snprintf and the size test" % r)
+    ctext = mfit.group(1)
+    mc = re.fullmatch(r"(.*?)(<=|>=|<|>)(.*)", ctext, re.S)
+    if not mc or re.search(r"[<>=!&|]", mc.group(1) + mc.group(3)):
+        raise TranslateError("size test outside the grammar: %r" % ctext)
+    lhs, op, rhs = linear(mc.group(1), r, cap), mc.group(2), linear(mc.group(3), r, cap)
+    if op in (">", ">="):
+        lhs, rhs, op = rhs, lhs, "<" if op == ">" else "<="
+    # lhs OP rhs  <=>  (lv-rv)*r + (lc-rc)*cap + (lk-rk) OP 0 ; must have the shape r + a < cap + b
+    dv, dc, dk = lhs[0] - rhs[0], lhs[1] - rhs[1], lhs[2] - rhs[2]
+    if (dv, dc) != (1, -1):
+        raise TranslateError("size test is not a comparison 'r + a < cap + b': %r" % ctext)
+    if op == "<=":
+        dk -= 1
+    a, b = (dk, 0) if dk >= 0 else (0, -dk)
+    tail = body[mfit.end():]
+    m2 = re.search(r"\b%s\s*=\s*(?:std::)?snprintf\s*\(\s*(\w+)\s*(?:\.\s*get\s*\(\s*\)|\.\s*data\s*\(\s*\))?\s*,\s*([^,]*?)\s*," % re.escape(r), tail)
+    if not m2:
+        raise TranslateError("second snprintf call of formatString not found")
+    dynbuf, dynsize = m2.group(1), m2.group(2)
+    if not re.search(chk, tail[m2.end():]):
+        raise TranslateError("no 'if (%s<0) DUNE_THROW' after the second snprintf" % r)
+    mret = re.search(r"return\s+std::string\s*\(\s*%s\s*(?:\.\s*get\s*\(\s*\)|\.\s*data\s*\(\s*\))?\s*\)\s*;" % re.escape(dynbuf), tail[m2.end():])
+    if not mret:
+        raise TranslateError("return of the heap buffer not found")
+    if re.fullmatch(r"[A-Za-z_]\w*", dynsize) and dynsize != r:
+        md = re.search(r"\b%s\s*=\s*([^;]*);" % re.escape(dynsize), tail[:m2.start()])
+        if not md:
+            raise TranslateError("definition of %s not found" % dynsize)
+        dexpr = md.group(1)
+    else:
+        dexpr = dynsize
+    ma = re.search(r"make_unique\s*<\s*char\s*\[\s*\]\s*>\s*\(\s*([^;]*?)\s*\)\s*;|new\s+char\s*\[\s*([^\]]*?)\s*\]", tail[:m2.start()])
+    if not ma:
+        raise TranslateError("allocation of the heap buffer not found")
+    alloc = ma.group(1) if ma.group(1) is not None else ma.group(2)
+    if alloc != dynsize and linear(alloc, r, None) != linear(dexpr, r, None):
+        raise TranslateError("the heap buffer is allocated with %r but snprintf is told %r" % (alloc, dynsize))
+    dvv, _, K = linear(dexpr, r, None)
+    if dvv != 1 or K < 0:
+        raise TranslateError("heap buffer size is not 'r + K': %r" % dexpr)
+    return a, b, K
+
+
+def emit_skeleton(a, b, K):
+    lhs = "r" if a == 0 else "r + %d" % a
+    rhs = "cap" if b == 0 else "cap + %d" % b
+    return ["/-- `if (r<bufferSize) return std::string(buffer);` of Dune::formatString: the test deciding that the stack buffer",
+            "    held the complete result (r = return value of snprintf, cap = capacity of the stack buffer) -/",
+            "def fmtFitsStack (r cap : Nat) : Bool := decide (%s < %s)" % (lhs, rhs),
+            "",
+            "/-- `static_cast<std::size_t>(r)+1`: the size of the heap buffer (allocated and handed to the second snprintf) -/",
+            "def fmtDynamicSize (r : Nat) : Nat := r + %d" % K]
+
+
+DEFAULT_SKELETON = (0, 0, 1)
+
+
+ITEMS = ("bufferSize", "pathIndicatesDirectory", "concatPaths", "docTables", "prettyPath2", "prettyPath1", "formatSkeleton")
 
 
 def analyse(repo):
@@ -400,11 +756,27 @@ def analyse(repo):
     except TranslateError as ex:
         con, status["concatPaths"] = DEFAULT_CONCAT, str(ex)
     try:
+        pretty2 = pretty_two(pc)
+        status["prettyPath2"] = None
+    except TranslateError as ex:
+        pretty2, status["prettyPath2"] = DEFAULT_PRETTY_TWO, str(ex)
+    try:
+        pretty1 = pretty_one(pc)
+        status["prettyPath1"] = None
+    except TranslateError as ex:
+        pretty1, status["prettyPath1"] = DEFAULT_PRETTY_ONE, str(ex)
+    try:
+        skeleton = format_skeleton(su)
+        status["formatSkeleton"] = None
+    except (TranslateError, NameError) as ex:
+        skeleton, status["formatSkeleton"] = DEFAULT_SKELETON, str(ex)
+    try:
         tables = doc_tables(open(os.path.join(repo, "dune/common/path.hh")).read())
         status["docTables"] = None
     except (TranslateError, OSError) as ex:
         tables, status["docTables"] = DEFAULT_TABLES, str(ex)
-    return dict(bufferSize=cap, indicates=ind, concat=con, tables=tables, status=status)
+    return dict(bufferSize=cap, indicates=ind, concat=con, tables=tables, status=status, pretty2=pretty2, pretty1=pretty1,
+                skeleton=skeleton)
 
 
 def status(repo):
@@ -426,6 +798,14 @@ def translate(repo):
            "",
            "/-- `Dune::concatPaths`, the decision list of path.cc -/",
            emit_def("concatPaths", a["concat"][0], "Str", a["concat"][1]),
+           "",
+           "/-- `Dune::prettyPath(p, isDirectory)`, the straight-line body of path.cc; the sanitiser is a parameter -/",
+           "\n".join(a["pretty2"]),
+           "",
+           "/-- `Dune::prettyPath(p)`, the one-argument overload; the two-argument overload is a parameter -/",
+           "\n".join(a["pretty1"]),
+           "",
+           "\n".join(emit_skeleton(*a["skeleton"])),
            "",
            "/-- the example table in the documentation of processPath (path.hh): p, result -/",
            "def docTableProcessPath : List (Str × Str) := [\n  %s]" % ",\n  ".join(
